@@ -99,6 +99,34 @@ func SList(n int, f func(int) string) string {
 	return strings.Join(xs, ",")
 }
 
+// CmpMenu / SwapMenu: the fixed menus of callback values of the execution path; the same menus
+// are GoSem.cmpMenuInt / GoSem.swapMenu on the Lean side.
+func CmpMenu[T int | int8 | int16 | int32 | int64 | uint | uint8 | uint16 | uint32 | uint64](k int64) func(T, T) bool {
+	switch k {
+	case 0:
+		return func(a, b T) bool { return a < b }
+	case 1:
+		return func(a, b T) bool { return a > b }
+	case 2:
+		return func(a, b T) bool { return a <= b }
+	case 3:
+		return func(a, b T) bool { return a == b }
+	case 4:
+		return func(a, b T) bool { return false }
+	}
+	return func(a, b T) bool { return true }
+}
+
+func SwapMenu[T any](k int64) func([]T, int, int) {
+	switch k {
+	case 0:
+		return func(s []T, i, j int) { s[i], s[j] = s[j], s[i] }
+	case 1:
+		return func(s []T, i, j int) {}
+	}
+	return func(s []T, i, j int) { s[i] = s[j] }
+}
+
 // Source64 is a math/rand Source64 that always delivers the word k (extern `r.Uint64()`).
 type Source64 uint64
 
@@ -127,6 +155,13 @@ func boundaryU(bits int) []uint64 {
 
 func genScalar(r *core.Rand, kind string, i int) string {
 	switch {
+	case strings.HasPrefix(kind, "menu:cmp:"):
+		return SInt(int64(r.Uint64() % 6))
+	case strings.HasPrefix(kind, "menu:swap:"):
+		if r.Uint64()%4 != 0 {
+			return "0"
+		}
+		return SInt(int64(r.Uint64() % 3))
 	case kind == "bool":
 		if r.Uint64()&1 == 0 {
 			return "true"
@@ -264,6 +299,13 @@ func Extra(id string) *core.Extra {
 						bi = 100000
 					}
 					args[j] = genArg(ctx.Rand, k, bi)
+					if j < len(tg.Limits) && tg.Limits[j] > 0 {
+						if v, err := strconv.ParseUint(args[j], 10, 64); err == nil && v > tg.Limits[j] {
+							args[j] = SUint(v % (tg.Limits[j] + 1))
+						} else if w, err := strconv.ParseInt(args[j], 10, 64); err == nil && w < 0 && uint64(-w) > tg.Limits[j] {
+							args[j] = SInt(-int64(uint64(-w) % (tg.Limits[j] + 1)))
+						}
+					}
 				}
 				lines = append(lines, strings.Join(args, " "))
 			}
